@@ -1,5 +1,6 @@
 import SJ.Drv.Mach
 import SJ.Drv.MachAp
+import SJ.Drv.MachRv
 import SJ.Spec.Canon
 import SJ.Spec.Pos
 namespace SJ.Drv.C01
@@ -121,7 +122,7 @@ def parseAll (tgt : Tgt) : Handler := fun args impl =>
             vs ++ c05 ++ pos.filterMap id ++ [judgeUtf8 "str" s, judgeUtf8 "slice" sl, judgeUtf8 "reader" rd].filterMap id
           else ([judgeIgnored "str" bs s, judgeIgnored "slice" bs sl, judgeIgnored "reader" bs rd] ++ pos).filterMap id
         | _ => ["malformed observation"]
-      { model := MachAp.runAllFor cfg tgt bs impl, specs := specs }
+      { model := MachRv.runAllFor c tgt bs impl, specs := specs }
     | none => bad "hex"
   | _ => bad "arity"
 
